@@ -32,6 +32,7 @@ def check(ctx: Ctx) -> None:
     r4(ctx)
     r5(ctx)
     r6(ctx)
+    r7(ctx)
 
 
 def _sig(f: FunctionInfo) -> List[Tuple[str, str, str]]:
@@ -191,8 +192,47 @@ def r3(ctx: Ctx) -> None:
     m = ctx.prog.modules["datashard.s3_consistency"]
     codes = m.consts.get("PERMANENT_S3_ERROR_CODES")
     vals = [c.value for c in ast.walk(codes) if isinstance(c, ast.Constant)] if codes is not None else []
+    rets = [n for n in ctx.cfg(ip).nodes if n.kind == "return" and n.id in ctx.cfg(ip).reachable()]
+    okr = bool(rets)
+    for r_ in rets:
+        v = r_.ast.value  # type: ignore[union-attr]
+        if isinstance(v, ast.Constant) and v.value is False:
+            continue
+        if isinstance(v, ast.Compare) and isinstance(v.ops[0], ast.In) and "PERMANENT_S3_ERROR_CODES" in norm_text(v.comparators[0]):
+            continue
+        okr = False
+    ctx.ob("C20.R3", ip, "an error is permanent only by membership in PERMANENT_S3_ERROR_CODES", rets[-1] if rets else None, okr,
+           "any broader classification (e.g. 'every 4xx') makes transient faults such as RequestTimeout/400, OperationAborted/409 or "
+           "429 throttling surface after one attempt instead of being masked within the retry budget")
     ctx.ob("C20.R3", ip, "404 / NoSuchKey are not permanent (a just-written object may read as missing)", None,
            bool(vals) and "404" not in vals and "NoSuchKey" not in vals and "AccessDenied" in vals, f"{len(vals)} permanent codes", nontrivial=False)
+
+
+def r7(ctx: Ctx, rid: str = "C20.R7") -> None:
+    ctx.rule(rid, "backends are stateless: no method other than __init__ stores to an instance attribute (no size / path / listing "
+             "cache that a write through another method - or another process - can leave stale)", 2)
+    for cname in ("LocalStorageBackend", "S3StorageBackend"):
+        ci = ctx.prog.cls(f"{SB}.{cname}")
+        bad = []
+        for m in ci.methods.values():
+            if m.name == "__init__":
+                continue
+            fns = [m] + list(m.nested.values())
+            for f in fns:
+                for n in ctx.cfg(f).nodes:
+                    if n.kind == "stmt" and isinstance(n.ast, (ast.Assign, ast.AugAssign, ast.AnnAssign)):
+                        tg = n.ast.targets if isinstance(n.ast, ast.Assign) else [n.ast.target]
+                        for t in tg:
+                            base = t.value if isinstance(t, ast.Subscript) else t
+                            if isinstance(base, ast.Attribute) and isinstance(base.value, ast.Name) and base.value.id == "self":
+                                bad.append(f"{f.file}:{n.lineno} {n.text[:60]}")
+                    if n.kind == "call" and isinstance(n.ast, ast.Call) and isinstance(n.ast.func, ast.Attribute) \
+                            and n.ast.func.attr in ("setdefault", "update", "append", "add", "pop", "clear") \
+                            and isinstance(n.ast.func.value, ast.Attribute) and isinstance(n.ast.func.value.value, ast.Name) \
+                            and n.ast.func.value.value.id == "self":
+                        bad.append(f"{f.file}:{n.lineno} {n.text[:60]}")
+        ctx.ob(rid, ci.methods["__init__"], f"{cname} keeps no mutable per-instance state", None, not bad,
+               "results always reflect the store (the other backend has no cache either)", witness=bad[:6] or None, text=cname)
 
 
 def r4(ctx: Ctx) -> None:
@@ -215,18 +255,38 @@ def r4(ctx: Ctx) -> None:
             ctx.ob("C20.R4", nf, "no prefix fallback at all", None, True, "exists() is an exact head_object", nontrivial=False)
 
 
-def r5(ctx: Ctx) -> None:
-    ctx.rule("C20.R5", "listing confinement: the prefix given to list_objects_v2 ends at a directory boundary on every path", 1)
+def r5(ctx: Ctx, rid: str = "C20.R5") -> None:
+    ctx.rule(rid, "listing confinement: the prefix given to list_objects_v2 ends at a directory boundary on every path", 1)
     lf = ctx.prog.cls(SB + ".S3StorageBackend").methods["list_files"]
     g = ctx.cfg(lf)
     uses = []
-    for nf in lf.nested.values():
+    scopes = list(lf.nested.values()) + [lf]
+    for nf in scopes:
         for n in ctx.cfg(nf).calls():
             pk = kwarg(n.ast, "Prefix")
             if pk is not None:
                 uses.append((nf, n, pk))
     if not uses:
-        raise AnalysisError("no Prefix= keyword found in S3 list_files")
+        any_list = next(((nf, c) for nf in scopes for c in ctx.cfg(nf).calls() if c.callee and c.callee.name.startswith("boto.list_objects")), None)
+        for d in [x for x in ast.walk(lf.node) if isinstance(x, ast.Dict)]:
+            for k, v in zip(d.keys, d.values):
+                if isinstance(k, ast.Constant) and k.value == "Prefix" and any_list is not None:
+                    uses.append((lf, any_list[1], v))
+    if not uses:
+        raise AnalysisError("no Prefix= found in S3 list_files")
+    # listing completeness: pages are walked with the SDK paginator, or by following NextContinuationToken
+    direct = [(nf, n) for nf in scopes for n in ctx.cfg(nf).calls() if n.callee and n.callee.name in ("boto.list_objects_v2", "boto.list_objects")]
+    pag = [(nf, n) for nf in scopes for n in ctx.cfg(nf).calls() if n.callee and n.callee.name.endswith(".paginate")]
+    if direct:
+        consts = {c.value for nf, _n in direct for c in ast.walk(nf.node) if isinstance(c, ast.Constant) and isinstance(c.value, str)}
+        okp = "NextContinuationToken" in consts
+        ctx.ob(rid, lf, "a hand-written page loop follows NextContinuationToken", direct[0][1], okp,
+               "list_objects_v2 returns at most 1000 keys per call; the token of the NEXT page is `NextContinuationToken` "
+               "(`ContinuationToken` merely echoes the request): without it every listing is silently cut at 1000 keys - markers, "
+               "manifests or metadata versions on later pages disappear from GC protection, reachability and recovery")
+    else:
+        ctx.ob(rid, lf, "pages are walked with the SDK paginator", pag[0][1] if pag else None, bool(pag),
+               "get_paginator('list_objects_v2').paginate(...) returns every page")
     for nf, n, pk in uses:
         var = pk.id if isinstance(pk, ast.Name) else None
         ok = False
@@ -261,7 +321,7 @@ def r5(ctx: Ctx) -> None:
                           edge_ok=lambda s, d, l: (s, d) not in ok_edges)
             ok = bool(aug) and w is None
             detail += f"; terminating assignments at lines {[a.lineno for a in aug]}; unterminated path: {w is not None}"
-        ctx.ob("C20.R5", lf, "listing prefix is separator-terminated", n, ok,
+        ctx.ob(rid, lf, "listing prefix is separator-terminated", n, ok,
                detail + ("" if ok else ": a string-prefix match makes list_files('data') return 'data_old/...' and "
                          "list_files('metadata') return the version hint; the local backend returns neither (and GC would delete "
                          "data_old/* as orphans)"))
